@@ -15,6 +15,7 @@ import (
 	"verifharness/drive"
 	"verifharness/gen"
 	"verifharness/spec"
+	"verifharness/stats"
 )
 
 // C19 — vector-engine failures surface as errors, never as silently missing vectors.
@@ -248,3 +249,33 @@ var c19 = Check[engineFaultCase]{
 func init() { c19.register() }
 
 func TestC19(t *testing.T) { c19.Rapid(t) }
+
+// TestC19Huge (thorough tier): one deterministic merge scenario beyond the size thresholds
+// that batching / buffer-capping code tends to introduce (more than 16384 vectors in one
+// field, more than 2^20 floats in one input), with every engine call failed once.
+func TestC19Huge(t *testing.T) {
+	const prop = "C19"
+	col := stats.New(prop, "engine-faults-huge")
+	defer col.Write()
+	plan := &spec.MergePlan{
+		Children: []spec.MergePlan{
+			{Leaf: &spec.BatchSpec{VecWide: &spec.VecWideSpec{N: 16600, Field: "vec", Dim: 64, Metric: "l2_norm", Opt: "recall", Seed: 7}}, Mmap: true},
+			{Leaf: &spec.BatchSpec{VecWide: &spec.VecWideSpec{N: 40, Field: "vec", Dim: 64, Metric: "l2_norm", Opt: "recall", Seed: 8}}},
+		},
+		Drops: []spec.DropSpec{{Docs: []uint32{0, 5, 16599}}, {Nil: true}},
+	}
+	c := engineFaultCase{Plan: plan}
+	col.CaseHash(1, true, []string{"scenario=merge", "clustered", "huge(>16384 vectors, >2^20 floats)"}, func() any {
+		return "merge of a 16600-vector (dim 64) opened segment with a 40-vector in-memory segment, 3 deletions; every engine call failed once"
+	})
+	col.CaseHash(2, true, nil, nil)
+	before := engineFaultStats.faulted
+	v := safeRun(c19, c)
+	col.SetExtra("faulted_operations", engineFaultStats.faulted-before)
+	if v != nil {
+		col.Freeze()
+		path := writeReplay(prop, "engine-faults", c, v)
+		fmt.Printf("VIOLATION-DETAIL property=%s stage=engine-faults-huge signature=%s replay=%s\n%s\n", prop, v.Signature, path, v.Message)
+		t.FailNow()
+	}
+}
